@@ -1,4 +1,5 @@
 import DigModel.Proofs.Rollback
+import DigModel.Proofs.SameSim
 import DigModel.Props.C14
 /-
   C06 — A rejected Provide or Decorate leaves no trace.
@@ -15,8 +16,16 @@ import DigModel.Props.C14
     before (`= st`): the graph nodes added while parsing its parameters are rolled back (repair of F15,
     `parse_rollback_eq`), and it registers no decorator — defect F2.
   * `C06_no_execution`: neither executes user code (C03_passive).
-  That states equal up to verified-flags behave identically for every continuation
-  (`C06_congr`) is checked by the metamorphic twins on the real library and by the correspondence.
+  * `C06_rejected_provide_is_invisible`, `C06_rejected_decorate_is_invisible` (full strength, whole programs, with
+    or without DeferAcyclicVerification): take the container at the end of any history; if a Provide or Decorate on it
+    is rejected, then **every** sequence of later operations gets, operation by operation, exactly the answers it
+    gets on the container on which that call was never made — verdicts and error texts, executions and their
+    arguments, callbacks, Info.  So the rejected function is never executed, provides and decorates nothing, blocks
+    no later registration and causes no later error or panic.  Proof: the two containers are equal up to the
+    `isVerifiedAcyclic` flags (`C06_provide_unchanged`), in every reachable container a flagged scope has an acyclic
+    graph (`VA`, an invariant of every operation in both verification modes — `verified_means_acyclic`), and two
+    such containers answer every operation alike and stay so (`step_simV`: the resolver does not read the flags,
+    `comm_engine`; Invoke's check passes on the unflagged side because the graph is the same).
 -/
 namespace Dig.C06
 
@@ -108,6 +117,66 @@ theorem C06_decorate_unchanged (ctx : Ctx) (fn : Fn) (st : St) (i s : Nat) (cb i
 theorem C06_no_execution (ctx : Ctx) (fns : List Fn) (st : St) (i : Nat) (op : Op) (h : op.isInvoke = false) :
     (step ctx fns st i op).2.ev = [] := step_passive ctx fns st i op h
 
+/-- the container at the end of any history -/
+private theorem reachable_vinv (p : Program) : VInv p.ctx.cfg (runProgram p).1 :=
+  VInv.runOps p.ctx p.fns p.ops 0 {} [] (VInv.init _)
+
+private theorem eqV0_of_left {a b : St} (h : EqButVerified { a with log := [] } b) : EqV0 a b :=
+  eqV_resetLog (a := { a with log := [] }) h
+
+theorem C06_rejected_provide_is_invisible (p : Program) (i s f : Nat) (o : ProvideOpts) (e : DErr)
+    (hrej : (step p.ctx p.fns (runProgram p).1 i (.provide s f o)).2.v = .err e)
+    (later : List Op) (j : Nat) (acc : List OpRes) :
+    (runOps p.ctx p.fns later j (step p.ctx p.fns (runProgram p).1 i (.provide s f o)).1 acc).2 =
+      (runOps p.ctx p.fns later j (runProgram p).1 acc).2 := by
+  have hinv := reachable_vinv p
+  generalize (runProgram p).1 = st at hinv hrej ⊢
+  have hinv' := hinv.step p.fns i (.provide s f o)
+  refine runOps_simV p.ctx p.fns later j st _ acc ?_ hinv hinv'
+  simp only [step] at hrej ⊢
+  cases hf : fnOf p.fns f with
+  | none => exact eqV0_of_left (eqV_refl _)
+  | some fn =>
+    rw [hf] at hrej
+    simp only at hrej ⊢
+    split
+    · rename_i hs
+      rw [if_pos hs] at hrej
+      exact eqV0_of_left (C06_provide_unchanged p.ctx fn _ i s o e (by simpa [RegRes.toOpRes] using hrej))
+    · exact eqV0_of_left (eqV_refl _)
+
+theorem C06_rejected_decorate_is_invisible (p : Program) (i s f : Nat) (cb info : Bool) (e : DErr)
+    (hrej : (step p.ctx p.fns (runProgram p).1 i (.decorate s f cb info)).2.v = .err e)
+    (later : List Op) (j : Nat) (acc : List OpRes) :
+    (runOps p.ctx p.fns later j (step p.ctx p.fns (runProgram p).1 i (.decorate s f cb info)).1 acc).2 =
+      (runOps p.ctx p.fns later j (runProgram p).1 acc).2 := by
+  have hinv := reachable_vinv p
+  generalize (runProgram p).1 = st at hinv hrej ⊢
+  have hinv' := hinv.step p.fns i (.decorate s f cb info)
+  refine runOps_simV p.ctx p.fns later j st _ acc ?_ hinv hinv'
+  simp only [step] at hrej ⊢
+  cases hf : fnOf p.fns f with
+  | none => exact eqV0_of_left (eqV_refl _)
+  | some fn =>
+    rw [hf] at hrej
+    simp only at hrej ⊢
+    split
+    · rename_i hs
+      rw [if_pos hs] at hrej
+      have hne : ¬ ((apiDecorate p.ctx fn { st with log := [] } i s cb info).2.v matches .ok) := by
+        have : (apiDecorate p.ctx fn { st with log := [] } i s cb info).2.v = .err e := by simpa [RegRes.toOpRes] using hrej
+        rw [this]; simp
+      rw [C06_decorate_unchanged p.ctx fn _ i s cb info hne]
+      exact eqV0_of_left (eqV_refl _)
+    · exact eqV0_of_left (eqV_refl _)
+
+/-- in every reachable container a scope flagged `isVerifiedAcyclic` has an acyclic graph, in both verification modes -/
+theorem C06_flags_are_honest (p : Program) (s : Nat) (hv : ((runProgram p).1.scope s).verified = true) :
+    checkAcyclic (runProgram p).1 s = .acyclic := verified_means_acyclic p s hv
+
+#print axioms C06_rejected_provide_is_invisible
+#print axioms C06_rejected_decorate_is_invisible
+#print axioms C06_flags_are_honest
 #print axioms C06_provide_unchanged
 #print axioms C06_decorate_unchanged
 #print axioms C06_no_execution
